@@ -370,9 +370,10 @@ def gen_base(rng, tier, mode="api", snan_ok=True, small=False):
     else:
         n = rng.weighted([(0, 1), (1, 1), (15, 1), (16, 1), (17, 1), (511, 1), (512, 1), (4095, 1), (4096, 1), (4097, 1),
                           (rng.randrange(0, 3000), 6), (rng.randrange(3000, 20000), 2 if tier == 'thorough' else 1)])
-    padk = rng.weighted([("aligned", 5), ("zero", 2), ("one", 1), ("random", 3), ("block", 1), ("big", 1)])
+    padk = rng.weighted([("aligned", 5), ("zero", 2), ("one", 1), ("random", 3), ("block", 1), ("big", 1), ("wide", 1)])
+    # wide: a padding count that needs more than 16 bits of the footer's 32-bit field
     padn = {"aligned": (-n) % BLOCK, "zero": 0, "one": 1, "random": rng.randrange(0, 5000), "block": BLOCK,
-            "big": 8191}[padk]
+            "big": 8191, "wide": rng.pick([65536, 65537, 68632, 131072 + 5, 166936])}[padk]
     if small and padn > 600:
         padn = padn % 600
     pad = [["rep", rng.randrange(256), padn]] if padn >= 8 else ([["lit", rng.randbytes(padn).hex()]] if padn else [])
